@@ -63,7 +63,7 @@ def to_json(v, tagged=True):
                 return int(x)
             if k == "f":
                 return float(x)
-            if k == "s":
+            if k in ("s", "e"):
                 return x
             raise ValueError(t)
         if set(v) == {"vec"}:
@@ -96,11 +96,20 @@ class Probe:
         self.edit = case["edit"]
         self.pos = case.get("pos", "definition")
         self.stream = self.pos in ("stream_item", "stream_of_optional")
+        if kind == "enum":
+            self.edit = "enum_add_value"
         self.stepinfo = steps
 
     def model(self, new):
         k = self.k
-        if self.kind == "type":
+        if self.kind == "enum":
+            defs, probe = evolib.wrap(self.pos, "Shade%d" % k)
+            for n in ("ProbeRec", "ProbeAlias", "OuterProbe"):
+                defs = defs.replace(n, "%s%d" % (n, k))
+                probe = probe.replace(n, "%s%d" % (n, k))
+            defs = "Shade%d: !enum\n  values: [%s]\n" % (k, "red, green, black" if new else "red, green") + defs
+            extra = ""
+        elif self.kind == "type":
             told, tnew = evolib.TYPE_EDITS[self.edit]
             defs, probe = evolib.wrap(self.pos, tnew if new else told)
             for n in ("ProbeRec", "ProbeAlias", "OuterProbe"):
@@ -118,8 +127,12 @@ class Probe:
                     t = dty[f["sample"]["leaf"]] + ("?" if f["zero"]["leaf"] == "null" else "")
                 lines.append("    %s: %s\n" % (f["n"], t))
             defs, extra = "Data%d: !record\n  fields:\n%s" % (k, "".join(lines)), ""
+            if self.edit == "rename_with_alias" and new:
+                defs = "Renamed%d: !record\n  fields:\n%s" % (k, "".join(lines)) + "Data%d: Renamed%d\n" % (k, k)
             probe = {"step": "Data%d", "union_first": "[Data%d, string]", "union_last": "[string, Data%d]", "vector_item": "!vector {items: Data%d}",
                      "stream_item": "!stream {items: Data%d}", "optional": "[null, Data%d]"}[self.pos] % k
+            if self.edit == "rename_with_alias" and new:
+                probe = probe.replace("Data%d" % k, "Renamed%d" % k)
         else:
             defs, probe = "Data%d: !record\n  fields:\n    a: int\n    b: string\n" % k, "Data%d" % k
             decl = {"stream_int": "!stream {items: int}", "vector_int": "!vector {items: int}", "optional_string": "[null, string]"}[self.stepinfo["decl"]]
@@ -167,15 +180,16 @@ def main():
     thorough = c.tier == "thorough"
     wd = os.path.join(sc, "tlc")
     os.makedirs(wd)
-    env = {"VERIF_OUT_TYPES": wd + "/t.ndjson", "VERIF_OUT_RECS": wd + "/r.ndjson", "VERIF_OUT_STEPS": wd + "/s.ndjson"}
+    env = {"VERIF_OUT_TYPES": wd + "/t.ndjson", "VERIF_OUT_RECS": wd + "/r.ndjson", "VERIF_OUT_STEPS": wd + "/s.ndjson", "VERIF_OUT_ENUMS": wd + "/e.ndjson"}
     res = tlc_eval("EvoData", timeout=900, workdir=wd, env=env)
     c.add_tlc(res)
     tcases = [json.loads(l) for l in open(env["VERIF_OUT_TYPES"]) if l.strip()]
     rcases = [json.loads(l) for l in open(env["VERIF_OUT_RECS"]) if l.strip()]
     steps = json.loads(open(env["VERIF_OUT_STEPS"]).readline())
+    ecases = [json.loads(l) for l in open(env["VERIF_OUT_ENUMS"]) if l.strip()]
     c.cov["states"] = len(tcases) + len(rcases) + len(steps)
     c.cov["transitions"] = sum(len(x["up"]) + len(x["down"]) for x in tcases + rcases)
-    allc = [("type", x, None) for x in tcases] + [("rec", x, None) for x in rcases] + \
+    allc = [("type", x, None) for x in tcases] + [("rec", x, None) for x in rcases] + [("enum", x, None) for x in ecases] + \
            [("step", {"edit": e}, info) for e, info in sorted(steps.items())]
     allc.sort(key=lambda x: json.dumps([x[0], x[1]["edit"], x[1].get("pos")]))
     c.rng.shuffle(allc)
@@ -280,7 +294,7 @@ def main():
             for old_ver in ("v0", "v1"):
                 old_is_new = old_ver == "v1" and p.k < half       # v1 already has the new definition of this probe
                 ups, downs = [], []
-                if p.kind in ("type", "rec"):
+                if p.kind in ("type", "rec", "enum"):
                     if old_is_new:
                         ups = [(x["in"], {"s": "ok", "v": x["in"]}) for x in p.case["down"]]
                         downs = list(ups)
